@@ -444,38 +444,39 @@ def clause_C(check, prog):
             x[1][1][0] == 'cmp' and x[1][1][1] == '==' and x[1][1][3] == num(0) and
             x[1][1][2] in (arr, dd)]
     tf = calls_in(body, PROP + '.trans_func')
-    ok = len(anyz) >= 1 and len(tf) >= 1
-    detail = 'no test for zeros in the list of distances'
+    # "gives for a list of distances the stack of the single-distance results": in
+    # the order of the list, one slice per entry, each labelled with its distance.
+    # The transfer function of distance 0 is 1, so a zero needs no special case; a
+    # special case that takes the zeros out and puts the input back *first* returns
+    # [1, 0, 2] as z = [z_image, 1, 2] and [0, 0, 1] as two slices.  Rule: whatever
+    # is handed to trans_func for a list is the whole list (as an array), and the
+    # result is not re-assembled from the input and a shorter stack.
+    ok = len(tf) >= 1
+    detail = 'no call of trans_func'
     rows = 0
     if ok:
-        for A, Z in itertools.product((True, False), repeat=2):
-            hyp = lambda t, A=A, Z=Z: A if t == scal else (Z if t in anyz else None)
-            leaf = select(body, hyp)
-            darg = select(tf[0][2][1], hyp) if len(tf[0][2]) > 1 else None
-            if leaf is None or darg is None:
-                ok, detail = False, 'stacking is not decided by (scalar d, zero in d)'
-                break
-            rows += 1
-            stacked = leaf[0] == 'call' and leaf[1] == 'xarray.concat' and leaf[2] and \
-                leaf[2][0][0] == 'list' and len(leaf[2][0][1]) == 2 and \
-                leaf[2][0][1][0] == donor and kw(leaf, 'dim') == ('const', 'z')
-            want_stack = (not A) and Z
-            if want_stack:
-                good = stacked and darg[0] == 'call' and darg[1] == 'numpy.delete' and \
-                    darg[2][0] == arr and bool(calls_in(darg[2][1], 'numpy.nonzero'))
-            else:
-                good = (not stacked) and not calls_in(leaf, 'xarray.concat') and \
-                    darg == (dd if A else arr)
-            if not good:
-                ok = False
-                detail = 'scalar d=%s, zero in d=%s: result %s, distances handed to ' \
-                    'trans_func %s' % (A, Z, show(leaf)[:80], show(darg)[:80])
+        for A in (True, False):
+            for Z in ((True, False) if anyz else (False,)):
+                hyp = lambda t, A=A, Z=Z: A if t == scal else (Z if t in anyz else None)
+                leaf = select(body, hyp)
+                darg = select(tf[0][2][1], hyp) if len(tf[0][2]) > 1 else None
+                if leaf is None or darg is None:
+                    ok, detail = False, 'result is not decided by (scalar d, zero in d)'
+                    break
+                rows += 1
+                good = not calls_in(leaf, 'xarray.concat') and \
+                    not calls_in(darg, 'numpy.delete') and darg == (dd if A else arr)
+                if not good:
+                    ok = False
+                    detail = 'scalar d=%s, zero in d=%s: result %s, distances handed to ' \
+                        'trans_func %s' % (A, Z, show(leaf)[:80], show(darg)[:80])
+                    break
+            if not ok:
                 break
     check.require(ok, 'C-zero-in-list', 'propagate',
-                  'a zero distance in a list contributes the input image itself '
-                  '(stacked along z, first) and is removed from the distances that '
-                  'are propagated -- exactly then (%d rows)' % rows, loc,
-                  fail_detail=detail)
+                  'a list of distances is propagated whole and in order, zeros '
+                  'included: nothing is taken out of it and nothing is stacked in '
+                  'front of the result (%d rows)' % rows, loc, fail_detail=detail)
     # ... and every slice keeps its own z label: nothing relabels / reorders
     # the stack after the concatenation
     relabel = []
